@@ -134,7 +134,9 @@ func ResolveStateConflictsV2(
 
 	// Get the full conflicted set, that is the conflicted events and the
 	// auth difference (events that don't appear in all auth chains).
-	fullConflictedSet := append(conflicted, r.calculateAuthDifference()...)
+	// (a fresh slice: appending to the caller's slice would write the auth difference into its
+	// backing array - over the unconflicted events if both are parts of one list)
+	fullConflictedSet := append(append(make([]PDU, 0, len(conflicted)), conflicted...), r.calculateAuthDifference()...)
 
 	// The full power set function returns the event and all of its auth
 	// events that also happen to appear in the conflicted set. This will
